@@ -560,6 +560,8 @@ func run(c *core.Ctx) int {
 			c.Count("traces", int64(so.Traces))
 			c.Count("scan_bytes", so.ScanBytes)
 			c.Distinct("exec_plans", so.Plan)
+			c.Count("traces_config_"+so.Reuse, int64(so.Traces))
+			c.Distinct("config_reuse_modes", so.Reuse)
 			for k, n := range so.Ctx {
 				c.Count("traces_ctx_"+k, int64(n))
 			}
@@ -582,7 +584,7 @@ func run(c *core.Ctx) int {
 					calls := getCalls(id)
 					if f.Call < len(calls) {
 						w["call"] = calls[f.Call]
-						w["minimal"] = minimise(c, variants[vi], calls, f, st)
+						w["minimal"] = minimise(c, variants[vi], id, calls, f, st)
 					}
 				}
 				c.Violate(f.Sig, f.Detail, w)
@@ -661,6 +663,11 @@ func run(c *core.Ctx) int {
 	if c.DistinctN("probe_ctx_flavours") < len(flavours) || c.DistinctN("probe_shapes") < len(probeShapes) {
 		c.Inconclusive("real-sleep-probe-flavour-or-shape-missing")
 	}
+	for _, m := range reuseModes {
+		if c.Counter("traces_config_"+m) == 0 {
+			c.Inconclusive("config-reuse-mode-never-reached:" + m)
+		}
+	}
 	for _, f := range flavours {
 		if c.Counter("traces_ctx_"+f.name) == 0 {
 			c.Inconclusive("context-flavour-without-trace:" + f.name)
@@ -693,6 +700,8 @@ func run(c *core.Ctx) int {
 		"ranges written by random_get only for needles >= 8 bytes. Time scan (host time now, +-1 day): only on what clock_*, *_filestat_get and random_get wrote; "+
 		"u64 LE at every byte offset in s/ms/us/ns, plus u32 LE seconds at 4-aligned offsets for clock/filestat. A hit in random output is a violation only when >= 3 processes report it "+
 		"for the same call, offset and scaling and (scaling is seconds or the script's trace also differs between processes); otherwise it is dismissed as chance and counted.")
+	c.Extra("config_reuse_rule", "every instance has a default-valued ModuleConfig; per (process variant, script) one of: fresh NewModuleConfig().WithName(\"\") per instance; ONE untouched NewModuleConfig() value for the whole process, one instance at a time; "+
+		"one base per script with base.WithName(unique) for all six instances derived before any instantiation; base instantiated first and every other config derived from it afterwards; one base value for all six instances, three alive at once per engine. Trace equality across instances/engines/processes decides.")
 	c.Extra("context_rule", "interpreter/A (reference trace) is called under context.Background(); the other five instances of a script in a process are called under value-only, WithCancel (never cancelled), WithTimeout(1h), WithDeadline(+50y) and value(WithCancel) contexts, rotated with variant and script; all six traces must be byte-identical. "+
 		"Real-sleep probes: engines x 6 context flavours x 9 shapes (poll_oneoff clock relative/absolute, realtime/monotonic, with fd_write / fd_read subscriptions, two clocks; sched_yield) x timeouts of 1 hour and 1 year; verdict = subject not returned although its control (timeout 0) returned and >= 1000 further control calls completed in the process during a >= 30 s watchdog.")
 	c.Assume("scripts have at most 200 calls, so the fake monotonic clock (1ms per reading) stays far below the current Unix time in any scaling")
@@ -783,13 +792,14 @@ func decideMismatch(c *core.Ctx, variants []*variant, sc scriptCase, calls []wca
 // minimise checks whether the finding shows with the single call alone.
 var minimiseBudget = map[string]int{}
 
-func minimise(c *core.Ctx, v *variant, calls []wcall, f finding, st *spawnStats) any {
+func minimise(c *core.Ctx, v *variant, id int, calls []wcall, f finding, st *spawnStats) any {
 	if minimiseBudget[f.Sig] >= 1 || strings.HasPrefix(f.Sig, "harness:") {
 		return nil
 	}
 	minimiseBudget[f.Sig]++
 	try := func(cs []wcall) bool {
-		r := spawn(c, v, []json.RawMessage{core.J(scriptCase{ID: 0, Calls: cs})}, st)
+		// same id: same context rotation and config reuse mode as the original run
+		r := spawn(c, v, []json.RawMessage{core.J(scriptCase{ID: id, Calls: cs})}, st)
 		var so scriptOut
 		if r[0].Out == nil || json.Unmarshal(r[0].Out, &so) != nil {
 			return false
